@@ -55,6 +55,8 @@ func (o Op) String() string {
 		return o.K
 	case "htrunc":
 		return fmt.Sprintf("htrunc(%d)", o.N)
+	case "hpread":
+		return fmt.Sprintf("hpread(%d)", o.N)
 	}
 	return fmt.Sprintf("%s(%s)", o.K, o.P)
 }
@@ -76,7 +78,10 @@ func apply(w *world, thread int, o Op) string {
 		if err == nil {
 			return "ok"
 		}
-		return "err:" + ops.ErrClass(err)
+		if c := ops.ErrClass(err); c != "other" || os.Getenv("VERIF_C15_RAWERR") == "" {
+			return "err:" + c
+		}
+		return "err:other(" + err.Error() + ")"
 	}
 	switch o.K {
 	case "mkdir":
@@ -165,6 +170,17 @@ func apply(w *world, thread int, o Op) string {
 			return res(err)
 		}
 		return "ok:" + string(b)
+	case "hpread":
+		// positional read of 4 bytes at offset N: does not move the handle's offset; EOF is an ordinary answer
+		if w.handles[thread] == nil {
+			return "nohandle"
+		}
+		buf := make([]byte, 4)
+		n, err := hackpadfs.ReadAtFile(w.handles[thread], buf, int64(o.N))
+		if err != nil && err != io.EOF {
+			return res(err)
+		}
+		return "ok:" + string(buf[:n])
 	case "htrunc":
 		if w.handles[thread] == nil {
 			return "nohandle"
@@ -328,7 +344,7 @@ func parent(p string) string {
 
 func mutates(k string) bool {
 	switch k {
-	case "stat", "hread", "hclose", "readdir", "cat":
+	case "stat", "hread", "hpread", "hclose", "readdir", "cat":
 		return false
 	}
 	return true
@@ -340,7 +356,7 @@ func pathsOf(thread []Op, i int) []string {
 	switch o.K {
 	case "rename":
 		return []string{o.P, o.P2}
-	case "hwrite", "hread", "htrunc", "hclose":
+	case "hwrite", "hread", "hpread", "htrunc", "hclose":
 		for j := i - 1; j >= 0; j-- {
 			if thread[j].K == "hopen" {
 				return []string{thread[j].P}
@@ -862,8 +878,13 @@ func TestBlobStorm(t *testing.T) {
 			body := []Op{{K: "hopen", P: "b", Flag: flag}}
 			n := rapid.IntRange(1, 4).Draw(rt, "nops")
 			for i := 0; i < n; i++ {
-				o := Op{K: rapid.SampledFrom([]string{"htrunc", "htrunc", "htrunc", "hwrite", "hwrite", "hread"}).Draw(rt, "k")}
+				// reads are positional (hpread): a read that follows the offset to the end of the file (hread) would make
+				// the next write land wherever the racing size happened to be, and sizes then double per lost race (the
+				// listed non-atomicity of same-file operations), which only makes the case slow
+				o := Op{K: rapid.SampledFrom([]string{"htrunc", "htrunc", "htrunc", "hwrite", "hwrite", "hpread", "hpread"}).Draw(rt, "k")}
 				switch o.K {
+				case "hpread":
+					o.N = rapid.IntRange(0, 12).Draw(rt, "off")
 				case "htrunc":
 					o.N = rapid.IntRange(0, 12).Draw(rt, "n")
 				case "hwrite":
@@ -886,6 +907,7 @@ func runStorm(p Program) (string, string) {
 		w := newPlainWorld(p)
 		var wg sync.WaitGroup
 		panics := make(chan string, 8)
+		badResults := make(chan string, 8)
 		start := make(chan struct{})
 		for th := range p.Threads {
 			th := th
@@ -898,10 +920,19 @@ func runStorm(p Program) (string, string) {
 					}
 				}()
 				_ = apply(w, th, p.Threads[th][0])
+				readable := p.Threads[th][0].Flag&3 == os.O_RDWR
 				<-start
 				for iter := 0; iter < 300; iter++ {
 					for _, o := range p.Threads[th][1:] {
-						_ = apply(w, th, o)
+						r := apply(w, th, o)
+						// every one of these operations succeeds in every sequential order (sizes are >= 0, the handle is
+						// open, reads only on readable handles): an error result has no sequential explanation
+						if strings.HasPrefix(r, "err:") && ((o.K != "hread" && o.K != "hpread") || readable) {
+							select {
+							case badResults <- fmt.Sprintf("thread %d %v = %s", th, o, r):
+							default:
+							}
+						}
 					}
 				}
 			}()
@@ -917,6 +948,11 @@ func runStorm(p Program) (string, string) {
 		select {
 		case m := <-panics:
 			return "C15 storm:panic", fmt.Sprintf("program %v: %s", p.Threads, m)
+		default:
+		}
+		select {
+		case m := <-badResults:
+			return "C15 storm:error-result", fmt.Sprintf("program %v: %s -- an operation that succeeds in every sequential order failed while the others ran", p.Threads, m)
 		default:
 		}
 		// the file is still usable and consistent
